@@ -71,6 +71,18 @@ func TestVerifReplayJSONExpr(t *testing.T) {
 		}
 	}
 	rec("", maxLen)
+	// acceptance agrees with encoding/json on texts with unusual leading / trailing bytes
+	for _, core := range []string{"true", "{\"a\": 1}", "[1, 2]", "12", "\"s\""} {
+		for _, pad := range []string{"", " ", "\n", "\t", "\r", "\v", "\f", "\u00a0", "\u2028", "\x00", "\ufeff"} {
+			for _, txt := range []string{core + pad, pad + core} {
+				n++
+				_, d := ParseExpression([]byte(txt), "t.json")
+				if d.HasErrors() == stdjson.Valid([]byte(txt)) {
+					t.Errorf("REPLAY-FAIL func=json.ParseExpression input=%q accepted=%v but encoding/json.Valid=%v", txt, !d.HasErrors(), stdjson.Valid([]byte(txt)))
+				}
+			}
+		}
+	}
 	// object keys computed from marked values: no panic, and the mark is on the object
 	for _, kv := range []cty.Value{cty.StringVal("x").Mark("secret"), cty.UnknownVal(cty.String).Mark("secret")} {
 		func() {
